@@ -19,9 +19,9 @@ CLAIMED = {
          "Theorems for every finite state space: a Gibbs redraw on a partition into fibers with state-independent candidate lists leaves the target invariant; mixtures over an independent auxiliary choice and compositions of invariant kernels are invariant; the data-point move's candidate list is closed. The real DataPointSampler / PruneRegraphSampler / ParticleGibbsSubtreeSampler are decided by exact transition matrices from every start tree over 2-3 (thorough: 4) data points.",
          "Subtree move: no theorem beyond the whole-tree case (C01); its state-dependent subtree choice is a recorded known finding (3+ data points). Tree-level candidate enumeration of prune-regraft is validated, not proved.",
          "DESIGN.md section 6 C04"),
- "C08": ("exact enumeration of every proposal draw against an independent placement oracle + Coq distribution algebra (proposal model in progress)",
-         "For every parent state over <= 2 (thorough: 3) data points incl. empty and outliers-only, every proposal kind, outlier proposal on/off, with/without permutation density: the exact outcome distribution of proposal.sample(), log_p on every outcome and create_particle's log_w are compared with an independent enumeration of all placements and with the target ratio.",
-         "Coq side currently only the distribution algebra (mass/uniform); the per-kind proposal model and its mass-one/faithfulness theorems are in progress.",
+ "C08": ("Coq proof (each proposal's sampler equals its density-weighted sum over ALL placements, mass one, subset counting, weight telescoping) + exact enumeration of every proposal draw against an independent placement oracle and against the Coq model",
+         "Theorems for every number of top-level clones, outlier setting, target values and test function: bootstrap / semi-adapted / fully-adapted samplers are exactly their reported densities over the list of all placements (faithful, normalised, complete), total mass 1, |k-subsets| = C(R,k), incremental weights telescope to target(T)/target(0). Tie: for every parent state over <= 3 (thorough: 4) data points incl. none and outliers-only, the exact outcome distribution of proposal.sample(), log_p on every outcome and create_particle's log_w are compared with an independent enumeration of placements, the target ratio, and the Coq model (vm_compute).",
+         "rng.choice(roots, k, replace=False) modelled as a uniform k-subset; the target values gam are inputs of the adapted models (their correctness is C02/C03); NoDup of the placement list not proved.",
          "DESIGN.md section 6 C08"),
 }
 NOT_YET = "check not built yet in this round (work in progress; see DESIGN.md section 9 build order)"
